@@ -84,9 +84,9 @@ def _fwd(lines, root, ic, r0, o0, mode):
                 m = rx.search_prio(root, rx.Ctx(line, ic), o0 + 1, line_mode=True)
                 if m and m[0] <= len(line):
                     return r, m[0]
-            else:
-                st_ = min(o0 + 1, len(line))
-                m = rx.search_prio(root, rx.Ctx(line[st_:], ic, notbol=st_ > 0), 0, line_mode=True)
+            elif o0 + 1 <= len(line):
+                st_ = o0 + 1
+                m = rx.search_prio(root, rx.Ctx(line[st_:], ic, notbol=True), 0, line_mode=True)
                 if m:
                     return r, m[0] + st_
         else:
